@@ -311,6 +311,10 @@ pub struct FormOpts {
     pub dup_pct: usize,
     /// Pool of state variable names.
     pub var_names: Vec<String>,
+    /// Probability (percent) that a variable atom / jump target is a name that is NOT in scope.
+    pub free_var_pct: usize,
+    /// Probability (percent) that a quantifier re-uses a name that is already in scope.
+    pub requantify_pct: usize,
 }
 
 impl FormOpts {
@@ -327,6 +331,8 @@ impl FormOpts {
             pattern_pct: 8,
             dup_pct: 10,
             var_names: ["x", "y", "z", "xx", "xxx", "w1"].iter().map(|s| s.to_string()).collect(),
+            free_var_pct: 0,
+            requantify_pct: 0,
         }
     }
 }
@@ -370,6 +376,9 @@ pub fn gen_open_formula(rng: &mut Rng, opts: &FormOpts, props: &[String], scope:
 
 impl Gen<'_> {
     fn atom(&mut self, scope: &[String]) -> F {
+        if self.opts.free_var_pct > 0 && self.rng.chance(self.opts.free_var_pct, 100) {
+            return F::Var(self.rng.pick(&self.opts.var_names).clone());
+        }
         let mut w = vec![1, 5, 0, 0]; // const, prop, var, wild
         if !scope.is_empty() {
             w[2] = 6;
@@ -395,6 +404,9 @@ impl Gen<'_> {
     }
 
     fn fresh_var(&mut self, scope: &[String]) -> Option<String> {
+        if self.opts.requantify_pct > 0 && !scope.is_empty() && self.rng.chance(self.opts.requantify_pct, 100) {
+            return Some(self.rng.pick(scope).clone());
+        }
         let candidates: Vec<&String> =
             self.opts.var_names.iter().filter(|v| !scope.contains(v)).collect();
         if candidates.is_empty() {
@@ -441,7 +453,7 @@ impl Gen<'_> {
             if depth_left > 0 {
                 w[2] = 4;
             }
-            if !scope.is_empty() {
+            if !scope.is_empty() || self.opts.free_var_pct > 0 {
                 w[3] = 2;
             }
         }
@@ -489,7 +501,11 @@ impl Gen<'_> {
                 F::Hyb(op, v, dom, Box::new(body))
             }
             _ => {
-                let v = self.rng.pick(scope).clone();
+                let v = if scope.is_empty() || (self.opts.free_var_pct > 0 && self.rng.chance(self.opts.free_var_pct, 100)) {
+                    self.rng.pick(&self.opts.var_names).clone()
+                } else {
+                    self.rng.pick(scope).clone()
+                };
                 let body = self.go(size - 1, scope);
                 F::Hyb(Hyb::Jump, v, None, Box::new(body))
             }
